@@ -940,6 +940,8 @@ fc_statements = [
     dict(
         name="c_char_*_result_buf_allocatable",
         buf_args=["context"],
+        c_impl_header=["<string.h>"],
+        cxx_impl_header=["<cstring>"],
         c_helper="ShroudTypeDefines",
         # Copy address of result into c_var and save length.
         # When returning a std::string (and not a reference or pointer)
@@ -1781,6 +1783,8 @@ fc_statements = [
         mixin=[
             "c_mixin_cfi_character_arg",
         ],
+        c_impl_header=["<string.h>"],
+        cxx_impl_header=["<cstring>"],
         f_arg_decl=[        # replace mixin
             "character(len=:), intent({f_intent}), allocatable :: {c_var}",
         ],
@@ -1909,6 +1913,7 @@ fc_statements = [
         mixin=[
             "c_mixin_cfi_character_arg",
         ],
+        cxx_impl_header=["<cstring>"],
         f_arg_decl=[        # replace mixin
             "character(len=:), intent({f_intent}), allocatable :: {c_var}",
         ],
